@@ -9,6 +9,9 @@ open Tw.Conn6 (Env Packet)
 
 /-! ### small facts -/
 
+theorem cannedToken_eq' : cannedToken = Conn6.TOKEN_NONE := by decide
+
+
 theorem vitalOfNet_cons (a pid : Nat) (e : Event) (r : List (Nat × NEvent)) :
     vitalOfNet ((a, mapEvent a pid e) :: r) = NetSim.vitalPayloads [e] ++ vitalOfNet r := by
   cases e with
@@ -233,5 +236,79 @@ theorem coup_remote {tl : Bool} {addr : Nat} {w w' : NW tl} {m : NMove}
   rw [hw]
   simp only [created_same, Bool.or_false, Bool.false_eq_true, if_false, empty_for', hsub, List.append_nil]
   simpa [vitalOfNet] using this
+
+/-! ### datagrams from the remote -/
+
+theorem refStateless_shape {acc : Bool} {a : Nat} {s s' : Slot} {pending : Bool}
+    {rd : Option Bool → Option Packet} {fresh : Option Nat} {r : Ret} {o : Out}
+    (h : refStateless acc a s pending rd fresh = .ok (s', r, o)) :
+    o.sent = [] ∧ vitalOfNet o.events = [] ∧
+      (s' = s ∨ (pending = false ∧ ∃ ack tok pid, rd none = some (.control ack tok .connect) ∧
+        s' = some (pid, Peer.new a tok.isSome))) := by
+  unfold refStateless at h
+  split at h
+  · simp only [Except.ok.injEq, Prod.mk.injEq] at h
+    rw [← h.2.2, ← h.1]; exact ⟨rfl, rfl, Or.inl rfl⟩
+  · simp only [Except.ok.injEq, Prod.mk.injEq] at h
+    rw [← h.2.2, ← h.1]; exact ⟨rfl, rfl, Or.inl rfl⟩
+  · rename_i ack tok hrd
+    split at h
+    · simp only [Except.ok.injEq, Prod.mk.injEq] at h
+      rw [← h.2.2, ← h.1]; exact ⟨rfl, rfl, Or.inl rfl⟩
+    · rename_i hp
+      split at h
+      · split at h
+        · simp at h
+        · rename_i pid
+          simp only [Except.ok.injEq, Prod.mk.injEq] at h
+          rw [← h.2.2, ← h.1]
+          exact ⟨rfl, rfl, Or.inr ⟨by simpa using hp, ack, tok, pid, hrd, rfl⟩⟩
+      · simp only [Except.ok.injEq, Prod.mk.injEq] at h
+        rw [← h.2.2, ← h.1]; exact ⟨rfl, rfl, Or.inl rfl⟩
+  · simp only [Except.ok.injEq, Prod.mk.injEq] at h
+    rw [← h.2.2, ← h.1]; exact ⟨rfl, rfl, Or.inl rfl⟩
+
+theorem slotOnDisconnect_cases {x : Nat × Peer} {evs : List Event} {s1 : Slot}
+    (h : slotOnDisconnect (some x) evs = .ok s1) : s1 = none ∨ s1 = some x := by
+  induction evs with
+  | nil => simp [slotOnDisconnect] at h; exact Or.inr h.symm
+  | cons e es ih =>
+    cases e with
+    | disconnect r => simp only [slotOnDisconnect] at h; exact Or.inl (slotOnDisconnect_none_stays h)
+    | connless d => simp only [slotOnDisconnect] at h; exact ih h
+    | chunk d v => simp only [slotOnDisconnect] at h; exact ih h
+    | ready => simp only [slotOnDisconnect] at h; exact ih h
+
+/-- a datagram the reader takes for a connect request, written by a genuine connection, is the
+canned packet `Net::accept` feeds -/
+theorem wireRead_connect {tl : Bool} {p : Packet} {alt : P6.Alt} {ack : Nat} {tok : Option Nat}
+    (h : P6.wireRead tl p alt none = some (.control ack tok .connect)) (hc : Canon p) :
+    Packet.control ack tok .connect = connectPacket tok.isSome := by
+  cases p with
+  | connless d => cases tl <;> simp [P6.wireRead, P6.strip] at h
+  | chunks a t rr n cs => cases tl <;> simp [P6.wireRead, P6.strip] at h
+  | control a t c =>
+    cases c with
+    | close r =>
+      cases tl <;> simp only [P6.wireRead, P6.strip, Bool.false_eq_true, if_false, if_true] at h <;>
+        (split at h
+         · simp at h
+         · cases alt <;> simp at h)
+    | connect =>
+      have := hc a t rfl
+      obtain ⟨ha, ht⟩ := this
+      subst ha ht
+      cases tl
+      · simp [P6.wireRead] at h
+        obtain ⟨h1, h2⟩ := h
+        subst h1 h2
+        simp [connectPacket, cannedToken_eq']
+      · simp [P6.wireRead, P6.strip] at h
+        obtain ⟨h1, h2⟩ := h
+        subst h1 h2
+        simp [connectPacket]
+    | keepAlive => cases tl <;> simp [P6.wireRead, P6.strip] at h
+    | connectAccept => cases tl <;> simp [P6.wireRead, P6.strip] at h
+    | accept => cases tl <;> simp [P6.wireRead, P6.strip] at h
 
 end Tw.NetC01
